@@ -44,7 +44,7 @@ REQUIRED_PROBES = ["not_done_polls", "error_history", "response_history", "unimp
                    "relative_name", "empty_response", "raw_operation", "poll_fault_retried", "poll_fault_surfaced",
                    "initial_done", "async_future", "metadata_checked", "long_poll_over_60s", "concurrent_futures", "rest_future",
                    "rest_polls", "rest_poll_rule_with_additional_bindings", "caller_cancelled_while_polling", "long_poll_outage_ridden_out",
-                   "relative_nested_name"]
+                   "relative_nested_name", "initial_operation_with_unknown_metadata_type"]
 ASSUMPTIONS = ["api-core's default polling policy (1 s x1.5 up to 20 s, 900 s budget) is the reference for liveness"]
 
 
@@ -104,6 +104,13 @@ def gen_scenarios(spec, rng, n):
             if client == "rest" and not m.get("http"):
                 continue
             op = gen_op(spec, rng, codec, fs, s, m, f"o{j}")
+            if client != "rest" and not op.get("raw") and not op.get("initial_done"):
+                # version skew on the gRPC flavours (decided by a PRNG derived from the finished op)
+                import random
+                from .. import rng as rng_mod
+                if random.Random(int(rng_mod.digest(op)[:12], 16)).random() < 0.12:
+                    op["alien_initial_metadata"] = True
+                    op["read_metadata"] = False      # (api-core refuses to convert metadata of another type: TypeError by design)
             if client == "rest":
                 from . import c04
                 from .. import simhttp
@@ -242,6 +249,12 @@ def server_factory(run):
                 return {"code": "UNIMPLEMENTED"}
             st["t0"] = now
             o = build_operation(codec, spec, op, m, fs["package"], op.get("initial_done"), 0)
+            if op.get("alien_initial_metadata") and not op.get("initial_done"):
+                # fault (version skew): the server that starts the operation is NEWER - the first Operation carries metadata
+                # of a type this client has never heard of (later polls carry what the scenario says)
+                o.metadata.type_url = "type.googleapis.com/acme.future.v9.StartupProgress"
+                o.metadata.value = b"\x08\x01\x12\x03new"
+                run.sim.ev("alien_metadata_sent", op=op["id"])
             return {"lat": 0.0, "msg": o}
         st["arrivals"] += 1
         j = st["arrivals"]
@@ -330,6 +343,8 @@ def judge_op(spec, codec, scenario, op, evs, probes):
 
     rfull = resolve(m["lro"]["response_type"], pkg)
     mfull = resolve(m["lro"]["metadata_type"], pkg)
+    if op.get("alien_initial_metadata"):
+        _bump(probes, "initial_operation_with_unknown_metadata_type")
     _bump(probes, "fully_qualified_name" if "." in m["lro"]["response_type"] else "relative_name")
     if any(x[0].isupper() and "." in x for x in (m["lro"]["response_type"], m["lro"]["metadata_type"])):
         _bump(probes, "relative_nested_name")
